@@ -34,7 +34,7 @@ CLAIMED = {
          "DESIGN.md §4 C05"),
  "C06": ("fault_enumeration",
          "runtime monitor with fault injection: deliveries of prepare / commit / rollback run in a client child the way the fence API is meant to be used (one local transaction holds fence.WithFence and a business effect row); after every delivery the fence table and the effects table of the fake database are compared with a five-state model and with the invariant 'effect rows <-> fence status'; a second stream drives the fence driver (two connections)",
-         "ALL delivery sequences over {prepare, commit, rollback} of length 1..4 (plus a failing / panicking business method at one position), random interleavings of 2-3 branches sharing the table; for 9 base sequences a database failure {error, connection lost before / after execution} at every command index of every step followed by a clean redelivery; 8 racing pairs x 12; fence driver: every command index of prepare / commit / rollback. Verdicts: each effect at most once, never confirm and cancel, empty rollback records a suspension without effect and a later try is refused, record and effect commit or roll back together, nil error exactly when the model accepts.",
+         "ALL delivery sequences over {prepare, commit, rollback} of length 1..4 (plus a failing / panicking business method at one position), random interleavings of 2-3 branches sharing the table; for 9 base sequences a database failure {error, connection lost before / after execution} at every command index of every step followed by a clean redelivery; 8 racing pairs x 12 (outcome must equal a serial order, or one delivery alone with the other one refused by an error); the interleaving 'rollback reads nothing - whole late try - rollback inserts' steered from inside the fake database; fence driver: every command index of prepare / commit / rollback. Verdicts: each effect at most once, never confirm and cancel, empty rollback records a suspension without effect and a later try is refused, record and effect commit or roll back together, nil error exactly when the model accepts.",
          "The business effect is written through the transaction passed to WithFence, committed iff WithFence returned nil. For the fence driver only the 'together' clause is judged (its BeginTx cannot tell the caller to skip a duplicate); open finding C06-K1.",
          "DESIGN.md §4 C06"),
  "C07": ("exploration",
@@ -45,7 +45,7 @@ CLAIMED = {
  "C14": ("exploration",
          "runtime monitor + Go race detector: concurrent SendSyncRequest callers in a -race client child against a scripted fake coordinator whose replies identify the request they answer; verif-tagged accessors for pending futures; goroutine-dump monitor for blocked response delivery",
          "N in {2..512} concurrent callers under reply permutations, delays across heart-beats, sequential and back-to-back duplicates, drops, unsolicited responses, phase-two requests with colliding ids, late replies (thorough) and a connection reset; each caller must get exactly the response carrying its own name and frame id or a timeout error; after every script a fresh request must complete, no goroutine may be parked in response delivery and (at the end) no message future may remain.",
-         "Quiescence is logical (callers returned + round trip). Race reports are attributed to C20. The reset scenario assumes getty's reconnect.",
+         "Quiescence is logical (callers returned + round trip). A race report whose conflicting accesses all lie in the message-future code (GettyRemoting / GettyRemotingClient / message future) is a violation of this property (a duplicate that was stored instead of discarded); all other race reports are attributed to C20. The reset scenario assumes getty's reconnect.",
          "DESIGN.md §4 C14"),
  "C15": ("exploration",
          "runtime monitor + Go race detector: a scripted recording resource manager registered through the public rm API in a -race client child; the fake coordinator delivers mixed concurrent phase-two request streams; offline matching of responses by message id in the coordinator's frame log",
@@ -64,7 +64,7 @@ CLAIMED = {
          "DESIGN.md §4 C02"),
  "C03": ("exploration",
          "runtime monitor: lock keys parsed independently from BranchRegister / GlobalLockQuery frames in the fake coordinator's log vs. the rows each COMMIT made durable in the fake database's journal; scripted lock-query answers; two overlapping global transactions under scripted reply orders",
-         "Every durable row must be named (table, pk values) by the lock key of the registration preceding its commit, with one key text per row across the run; SELECT ... FOR UPDATE returns rows only after a lockable answer naming them and releases its local locks on conflict; no commit while the coordinator's lock table has the row held by another xid or after a refused registration.",
+         "Every durable row must be named (table, pk values) by the lock key of the registration preceding its commit, with one key text per row across the run and across statement forms (rows inserted with a shuffled column list are written again by UPDATE / DELETE; rows written and then read with a locking select in one transaction; int, varchar, composite, look-alike composite text and byte-valued keys); SELECT ... FOR UPDATE returns rows only after a lockable answer naming them and releases its local locks on conflict; no commit while the coordinator's lock table has the row held by another xid or after a refused registration.",
          "Lock-key grammar and lock-table semantics are those of Seata (keys opaque to the coordinator). Interleavings of the two-transaction part are limited to orders the database's row locks permit.",
          "DESIGN.md §4 C03"),
  "C08": ("exploration",
@@ -74,7 +74,7 @@ CLAIMED = {
          "DESIGN.md §4 C08"),
  "C09": ("exploration",
          "runtime monitor: real AT driver + RM in a client child against the MySQL-protocol fake and the fake coordinator; a foreign writer (plain connection) modifies the branch's rows between local commit and BranchRollback; three-way oracle on ground-truth row versions (before branch / after branch / current) taken from the fake database, never from the undo log",
-         "Committed branches (INSERT 1/3 rows, UPDATE 1/many rows incl. value-preserving updates, DELETE 1/many rows, upsert hit/miss; four key shapes) x foreign modification {none, written column, unwritten column, delete, re-insert same/different, some rows of many, revert to before} x foreign value {far, near: neighbour integers incl. beyond 2^53, next float, numeric-looking text in another spelling, +1 s} x only-care-update-columns x serializer; dirty rows must survive with the undo log kept and a non-Rollbacked answer; rows equal to the before image => Rollbacked without a durable write; rows equal to the after image => restored.",
+         "Committed branches (INSERT 1/3 rows, UPDATE 1/many rows incl. value-preserving updates, DELETE 1/many rows, upsert hit/miss; five key shapes incl. composite text keys whose parts run into each other when concatenated) x foreign modification {none, written column, unwritten column, delete, re-insert same/different, some rows of many, revert to before} x foreign value {far, near: neighbour integers incl. beyond 2^53, next float, numeric-looking text in another spelling, +1 s} x only-care-update-columns x serializer; dirty rows must survive with the undo log kept and a non-Rollbacked answer; rows equal to the before image => Rollbacked without a durable write; rows equal to the after image => restored.",
          "Validation-off runs are a control group without verdict. Mixed before/after row sets without a dirty row get no verdict (the code compares whole image sets and refuses, which is conservative). A row matched but left unchanged by the branch only has to survive.",
          "DESIGN.md §4 C09"),
  "C10": ("fault_enumeration",
